@@ -1044,7 +1044,7 @@ pub fn miri_campaign(id: &str, part: &str, per_job: usize, jobs: usize, seed: u6
     let hdir = format!("{}/harness", verif_dir());
     let mk = |n: usize, sd: u64| {
         let mut c = std::process::Command::new("cargo");
-        c.args(["+nightly", "miri", "run", "--release", "--bin", "vmiri", "--", part, &n.to_string(), &sd.to_string()]).env("MIRIFLAGS", if part.ends_with("mix") { "-Zmiri-permissive-provenance -Zmiri-ignore-leaks" } else { "-Zmiri-permissive-provenance" }).env("CARGO_NET_OFFLINE", "true").current_dir(&hdir);
+        c.args(["+nightly", "miri", "run", "--release", "--bin", "vmiri", "--", part, &n.to_string(), &sd.to_string()]).env("MIRIFLAGS", "-Zmiri-permissive-provenance").env("CARGO_NET_OFFLINE", "true").current_dir(&hdir);
         c
     };
     // build once (0 cases)
